@@ -66,10 +66,13 @@ where
     fn drop(&mut self) {
         let mut remaining_to_read = self.size;
 
-        while remaining_to_read > 0 {
-            let mut buf = vec![0; remaining_to_read];
+        // the declared length comes from the client: never size a buffer by it
+        let mut buf = [0u8; 1024];
 
-            match self.reader.read(&mut buf) {
+        while remaining_to_read > 0 {
+            let len = remaining_to_read.min(buf.len());
+
+            match self.reader.read(&mut buf[..len]) {
                 Err(e) => {
                     self.last_read_signal.send(Err(e)).ok();
                     break;
